@@ -736,10 +736,6 @@ def CanonItems : Items → Prop
   | .cons _ v r => Canon v ∧ CanonItems r
 end
 
-def enumT (kd : Kind) (i : Nat) : Items → List (Key × Val)
-  | .nil => []
-  | .cons k v r => (effKey kd i k, v) :: enumT kd (i + 1) r
-
 theorem enumT_snd (kd : Kind) : (its : Items) → (i : Nat) →
     (enumT kd i its).map Prod.snd = its.toList.map Prod.snd
   | .nil, i => rfl
@@ -1812,6 +1808,655 @@ theorem rebuildItems_keys_sublist (c : Cfg) (hf : FilterVisit c.vf) (p : Path) (
       exact ih.cons_cons _
     · simp only [applyVisit, h, List.map_nil, List.nil_append]
       exact ih.cons _
+
+
+
+/-! ## research: the root's own enter call comes first; members of a research result -/
+
+/-- the trace only grows, and a step never adds an `enter` event in front of existing ones -/
+theorem hstep_trace (c : HCfg) (h : Heap) (root : Obj) (s s' : HSt) (hs : hstep c h root s = some s') :
+    ∃ tr, s'.trace = s.trace ++ tr := by
+  simp only [hstep] at hs
+  split at hs
+  · simp at hs
+  · split at hs
+    · simp at hs
+    · split at hs
+      · injection hs with hs; subst hs; exact ⟨[], by simp⟩
+      · split at hs
+        · injection hs with hs; subst hs; exact ⟨_, rfl⟩
+        · injection hs with hs; subst hs
+          rw [finishItem_trace]; exact ⟨_, by simp [List.append_assoc]; rfl⟩
+    · split at hs
+      · injection hs with hs; subst hs
+        rw [finishItem_trace]; exact ⟨_, by simp [List.append_assoc]; rfl⟩
+      · split at hs
+        · injection hs with hs; subst hs
+          rw [finishItem_trace]; exact ⟨_, rfl⟩
+        · split at hs
+          · injection hs with hs; subst hs
+            rw [finishItem_trace]; exact ⟨_, by simp [List.append_assoc]; rfl⟩
+          · injection hs with hs; subst hs; exact ⟨_, rfl⟩
+
+theorem researchRun_mem {α : Type} (q : Path → Key → α → Option Bool) (reraise : Bool) :
+    (calls : List (Path × Key × α)) → (l : List (Path × α)) → researchRun q reraise calls = some l →
+    ∀ pv ∈ l, ∃ e ∈ calls, q e.1 e.2.1 e.2.2 = some true ∧ pv = (e.1 ++ [e.2.1], e.2.2)
+  | [], l, h, pv, hm => by
+    simp only [researchRun, Option.some.injEq] at h
+    subst h; simp at hm
+  | (p, k, v) :: r, l, h, pv, hm => by
+    simp only [researchRun] at h
+    split at h
+    · split at h
+      · simp at h
+      · obtain ⟨e, he, h1, h2⟩ := researchRun_mem q reraise r l h pv hm
+        exact ⟨e, List.mem_cons_of_mem _ he, h1, h2⟩
+    · obtain ⟨e, he, h1, h2⟩ := researchRun_mem q reraise r l h pv hm
+      exact ⟨e, List.mem_cons_of_mem _ he, h1, h2⟩
+    · rename_i hq
+      cases hr : researchRun q reraise r with
+      | none => simp [hr] at h
+      | some l' =>
+        simp only [hr, Option.map_some, Option.some.injEq] at h
+        subst h
+        simp only [List.mem_cons] at hm
+        rcases hm with hm | hm
+        · exact ⟨(p, k, v), List.mem_cons_self, hq, hm⟩
+        · obtain ⟨e, he, h1, h2⟩ := researchRun_mem q reraise r l' hr pv hm
+          exact ⟨e, List.mem_cons_of_mem _ he, h1, h2⟩
+
+def FirstEnter (root : Obj) (s : HSt) : Prop :=
+  s = hinit root ∨ (enterLog s.trace).take 1 = [([], Atom.none, root)]
+
+theorem FirstEnter_step (c : HCfg) (h : Heap) (root : Obj) (s s' : HSt) (hi : FirstEnter root s)
+    (hs : hstep c h root s = some s') : FirstEnter root s' := by
+  rcases hi with hi | hi
+  · subst hi
+    right
+    simp only [hstep, hinit] at hs
+    cases root with
+    | atom a =>
+      simp only at hs
+      injection hs with hs; subst hs
+      simp [finishItem_trace, enterLog]
+    | ref rid =>
+      simp only [lookup] at hs
+      cases hnd : h[rid]? with
+      | none =>
+        simp only [hnd] at hs
+        injection hs with hs; subst hs
+        simp [finishItem_trace, enterLog]
+      | some nd =>
+        simp only [hnd] at hs
+        injection hs with hs; subst hs
+        simp [enterLog]
+  · right
+    obtain ⟨tr, ht⟩ := hstep_trace c h root s s' hs
+    rw [ht, enterLog_append]
+    cases hx : enterLog s.trace with
+    | nil => simp [hx] at hi
+    | cons a r => simp [hx] at hi ⊢; exact hi
+
+theorem FirstEnter_run (c : HCfg) (h : Heap) (root : Obj) (n : Nat) (s : HSt) (hi : FirstEnter root s) :
+    FirstEnter root (hrun c h root n s) := by
+  induction n generalizing s with
+  | zero => exact hi
+  | succ n ih =>
+    simp only [hrun]
+    cases hs : hstep c h root s with
+    | none => exact hi
+    | some s' => exact ih s' (FirstEnter_step c h root s s' hi hs)
+
+/-- `remap`'s first `enter` call is the root's own, with the empty path and key `None` -/
+theorem first_enter_is_root (c : HCfg) (h : Heap) (root : Obj) :
+    ∀ e ∈ (enterLog (hfinal c h root).trace).take 1, e = ([], Atom.none, root) := by
+  intro e he
+  rcases FirstEnter_run c h root (hbound h) (hinit root) (Or.inl rfl) with hf | hf
+  · unfold hfinal at he; rw [hf] at he; simp [hinit, enterLog] at he
+  · unfold hfinal at he; rw [hf] at he; simpa using he
+
+
+/-! ## custom enter / exit callbacks: the loop computes the recursion -/
+
+
+
+theorem grun_stuck (c : GCfg) (s : GSt) (h : gstep c s = none) (m : Nat) : grun c m s = s := by
+  cases m <;> simp [grun, h]
+
+theorem grun_add (c : GCfg) (a b : Nat) (s : GSt) : grun c (a + b) s = grun c b (grun c a s) := by
+  induction a generalizing s with
+  | zero => simp [grun]
+  | succ n ih =>
+    rw [Nat.succ_add]
+    simp only [grun]
+    cases hs : gstep c s with
+    | none => simp [grun_stuck c s hs]
+    | some s' => simp [ih]
+
+theorem grun_one (c : GCfg) (s s' : GSt) (hs : gstep c s = some s') : grun c 1 s = s' := by
+  simp [grun, hs]
+
+def GSimVal (c : GCfg) (n : Nat) : Prop :=
+  ∀ (p : Path) (k : Key) (v v' : Val) (rest : List GFrame) (pp : Path) (acc : List (Key × Val))
+    (nr : List (Path × List (Key × Val))) (val : Val),
+    gValue c n p k v = some v' →
+    ∃ m, grun c m ⟨.item k v :: rest, p, (pp, acc) :: nr, val, false, false⟩ =
+      ⟨rest, p, (pp, acc ++ applyVisit c.vf p k v') :: nr, v', false, false⟩
+
+def GSimItems (c : GCfg) (n : Nat) : Prop :=
+  ∀ (p : Path) (items its : List (Key × Val)) (rest : List GFrame) (pp : Path) (acc : List (Key × Val))
+    (nr : List (Path × List (Key × Val))) (val : Val),
+    gItems c n p items = some its →
+    ∃ m val', grun c m ⟨gFrames items ++ rest, p, (pp, acc) :: nr, val, false, false⟩ =
+      ⟨rest, p, (pp, acc ++ its) :: nr, val', false, false⟩
+
+theorem gsimItems_succ (c : GCfg) (n : Nat) (hv : GSimVal c n) (hi : GSimItems c n) :
+    GSimItems c (n + 1) := by
+  intro p items its rest pp acc nr val hr
+  cases items with
+  | nil =>
+    simp only [gItems, Option.some.injEq] at hr
+    subst hr
+    exact ⟨0, val, by simp [grun, gFrames]⟩
+  | cons x r =>
+    obtain ⟨k, v⟩ := x
+    simp only [gItems] at hr
+    split at hr
+    · simp at hr
+    · rename_i v' hv'
+      split at hr
+      · simp at hr
+      · rename_i rest' hr'
+        injection hr with hr; subst hr
+        obtain ⟨m1, h1⟩ := hv p k v v' (gFrames r ++ rest) pp acc nr val hv'
+        obtain ⟨m2, val', h2⟩ := hi p r rest' rest pp (acc ++ applyVisit c.vf p k v') nr v' hr'
+        refine ⟨m1 + m2, val', ?_⟩
+        rw [grun_add]
+        simp only [gFrames, List.map_cons, List.cons_append] at h1 ⊢
+        rw [h1]
+        simpa [gFrames, List.append_assoc] using h2
+
+theorem gsimVal_succ (c : GCfg) (n : Nat) (hi : GSimItems c n) : GSimVal c (n + 1) := by
+  intro p k v v' rest pp acc nr val hr
+  simp only [gValue] at hr
+  split at hr
+  · rename_i hen
+    injection hr with hr; subst hr
+    refine ⟨1, ?_⟩
+    apply grun_one
+    simp [gstep, hen]
+  · rename_i np items hen
+    split at hr
+    · simp at hr
+    · rename_i its hits
+      injection hr with hr; subst hr
+      obtain ⟨m2, val', h2⟩ := hi (p ++ [k]) items its (.exit k v np :: rest) p [] ((pp, acc) :: nr) val hits
+      refine ⟨1 + (m2 + 1), ?_⟩
+      have e1 : grun c 1 ⟨.item k v :: rest, p, (pp, acc) :: nr, val, false, false⟩ =
+          ⟨gFrames items ++ (.exit k v np :: rest), p ++ [k], (p, []) :: (pp, acc) :: nr, val, false, false⟩ := by
+        apply grun_one
+        simp [gstep, hen]
+      rw [grun_add, grun_add, e1, h2]
+      apply grun_one
+      simp [gstep]
+
+theorem gsim_all (c : GCfg) (n : Nat) : GSimVal c n ∧ GSimItems c n := by
+  induction n with
+  | zero =>
+    constructor
+    · intro p k v v' rest pp acc nr val hr; simp [gValue] at hr
+    · intro p items its rest pp acc nr val hr; simp [gItems] at hr
+  | succ n ih => exact ⟨gsimVal_succ c n ih.2, gsimItems_succ c n ih.1 ih.2⟩
+
+/-- the loop, run long enough, returns what the recursion returns -/
+theorem gRemap_eq_rec_aux (c : GCfg) (n : Nat) (root : Val) (r : GRes) (hr : gRoot c n root = some r) :
+    ∃ m, ∀ m', m ≤ m' → gRemapIter c m' root = some r := by
+  unfold gRoot at hr
+  split at hr
+  · rename_i hen
+    refine ⟨1, fun m' hm => ?_⟩
+    obtain ⟨d, rfl⟩ := Nat.exists_eq_add_of_le hm
+    split at hr
+    · rename_i hv
+      injection hr with hr; subst hr
+      have e1 : grun c 1 (ginit root) = ⟨[], [], [], root, false, false⟩ := by
+        apply grun_one; simp [gstep, ginit, hen, hv]
+      simp only [gRemapIter]
+      rw [grun_add, e1, grun_stuck c _ (by simp [gstep])]
+      simp
+    · rename_i hv
+      injection hr with hr; subst hr
+      have e1 : grun c 1 (ginit root) = ⟨[], [], [], root, false, true⟩ := by
+        apply grun_one; simp [gstep, ginit, hen, hv]
+      simp only [gRemapIter]
+      rw [grun_add, e1, grun_stuck c _ (by simp [gstep])]
+      simp
+  · rename_i np items hen
+    split at hr
+    · simp at hr
+    · rename_i its hits
+      injection hr with hr; subst hr
+      obtain ⟨m2, val', h2⟩ := (gsim_all c n).2 [] items its [.exit .none root np] [] [] [] root hits
+      refine ⟨1 + (m2 + 1), fun m' hm => ?_⟩
+      obtain ⟨d, rfl⟩ := Nat.exists_eq_add_of_le hm
+      have e1 : grun c 1 (ginit root) =
+          ⟨gFrames items ++ [.exit .none root np], [], [([], [])], root, false, false⟩ := by
+        apply grun_one; simp [gstep, ginit, hen]
+      have e3 : grun c (1 + (m2 + 1)) (ginit root) =
+          ⟨[], [], [], c.ex [] .none root np its, false, false⟩ := by
+        rw [grun_add, grun_add, e1, h2]
+        apply grun_one
+        simp [gstep]
+      simp only [gRemapIter]
+      rw [grun_add, e3, grun_stuck c _ (by simp [gstep])]
+      simp
+
+
+theorem vsize_pos : (v : Val) → 1 ≤ vsize v
+  | .leaf _ => by simp [vsize]
+  | .node _ _ => by simp [vsize]; omega
+
+mutual
+theorem gValue_default (vf : VisitFn Val) : (v : Val) → (n : Nat) → (p : Path) → (k : Key) → vsize v ≤ n →
+    gValue (dflt vf) n p k v = some (rebuildChild ⟨vf, defaultExit⟩ p k v)
+  | .leaf a, n, p, k, hn => by
+    cases n with
+    | zero => simp [vsize] at hn
+    | succ m => simp [gValue, dflt, defaultEnterG, rebuildChild]
+  | .node kd its, n, p, k, hn => by
+    cases n with
+    | zero => simp [vsize] at hn
+    | succ m =>
+      simp only [vsize] at hn
+      have := gItems_default vf its m (p ++ [k]) kd 0 (by omega)
+      simp only [dflt] at this
+      simp [gValue, dflt, defaultEnterG, this, rebuildChild, defaultExitG, defaultExit]
+theorem gItems_default (vf : VisitFn Val) : (its : Items) → (n : Nat) → (p : Path) → (kd : Kind) → (i : Nat) →
+    isize its < n → gItems (dflt vf) n p (enumT kd i its) = some (rebuildItems ⟨vf, defaultExit⟩ p kd i its)
+  | .nil, n, p, kd, i, hn => by
+    cases n with
+    | zero => omega
+    | succ m => simp [gItems, enumT, rebuildItems]
+  | .cons k v r, n, p, kd, i, hn => by
+    cases n with
+    | zero => omega
+    | succ m =>
+      simp only [isize] at hn
+      have hv := vsize_pos v
+      have h1 := gValue_default vf v m p (effKey kd i k) (by omega)
+      have h2 := gItems_default vf r m p kd (i + 1) (by omega)
+      simp only [dflt] at h1 h2
+      simp [gItems, enumT, dflt, h1, h2, rebuildItems]
+end
+
+/-- with `default_enter` / `default_exit` plugged in, the generic recursion is the bottom-up
+    rebuild `remapRec` of the main theorems -/
+theorem gRoot_default (vf : VisitFn Val) (kd : Kind) (its : Items) (n : Nat) (hn : isize its < n) :
+    gRoot (dflt vf) n (.node kd its) = some (.ok (remapRec ⟨vf, defaultExit⟩ (.node kd its))) := by
+  have := gItems_default vf its n [] kd 0 hn
+  simp only [dflt] at this
+  simp [gRoot, dflt, defaultEnterG, this, remapRec, defaultExitG, defaultExit]
+
+
+
+/-! ## heap level: raising visit callbacks - the loop agrees with the recursion that reports the raise -/
+
+/-! A: an `ok` outcome is an outcome of the original recursion -/
+theorem recE_ok (c : HCfg) (h : Heap) (root : Obj) (n : Nat) :
+    (∀ p k o st st' v, recValE c h root n p k o st = some (.ok st' v) → recVal c h root n p k o st = some (st', v)) ∧
+    (∀ p items acc st st' acc', recItemsE c h root n p items acc st = some (.ok st' acc') →
+      recItems c h root n p items acc st = some (st', acc')) := by
+  induction n with
+  | zero => constructor <;> intros <;> simp_all [recValE, recItemsE]
+  | succ n ih =>
+    constructor
+    · intro p k o st st' v hr
+      cases o with
+      | atom a => simp only [recValE] at hr; simp only [recVal]; injection hr with hr; injection hr with h1 h2; subst h1; subst h2; rfl
+      | ref id =>
+        simp only [recValE] at hr
+        simp only [recVal]
+        split at hr
+        · rename_i v0 hlk; injection hr with hr; injection hr with h1 h2; subst h1; subst h2; simp [hlk]
+        · rename_i hlk
+          split at hr
+          · rename_i hnd; injection hr with hr; injection hr with h1 h2; subst h1; subst h2; simp [hlk, hnd]
+          · rename_i nd hnd
+            split at hr
+            · simp at hr
+            · simp at hr
+            · rename_i st2 items hri
+              injection hr with hr; injection hr with h1 h2; subst h1; subst h2
+              simp [hlk, hnd, ih.2 _ _ _ _ _ _ hri]
+    · intro p items acc st st' acc' hr
+      cases items with
+      | nil => simp only [recItemsE] at hr; injection hr with hr; injection hr with h1 h2; subst h1; subst h2; simp [recItems]
+      | cons x r =>
+        obtain ⟨k, o⟩ := x
+        simp only [recItemsE] at hr
+        simp only [recItems]
+        split at hr
+        · simp at hr
+        · simp at hr
+        · rename_i st1 val hv
+          rw [ih.1 _ _ _ _ _ _ hv]
+          split at hr
+          · simp at hr
+          · rename_i its hvo
+            simp only [hvo]
+            exact ih.2 _ _ _ _ _ _ hr
+
+theorem finishItem_raise (c : HCfg) (s : HSt) (rest : List HFrame) (k : Key) (src val : Obj)
+    (hv : visitOut c s.out s.path k val = none) :
+    finishItem c s rest k src val =
+      { s with stack := rest, value := val, trace := s.trace ++ [.visit s.path k src val],
+               err := some .visitError } := by
+  unfold visitOut at hv
+  unfold finishItem
+  split at hv <;> try (simp at hv)
+  rename_i hvf
+  simp [hvf, hv]
+
+/-- the loop state reached when a visit raises: `err` set, registry / output heap / trace as given -/
+def Raised (s : HSt) (st' : RSt) : Prop :=
+  s.err = some .visitError ∧ s.reg = st'.reg ∧ s.out = st'.out ∧ s.trace = st'.trace
+
+/-- B1: the item is rebuilt, then its visit raises -/
+theorem simVal_raise (c : HCfg) (h : Heap) (root : Obj) (n : Nat)
+    (p : Path) (k : Key) (o : Obj) (st st' : RSt) (v : Obj)
+    (rest : List HFrame) (pp : Path) (acc : List (Key × Obj)) (nr : List (Path × List (Key × Obj))) (val : Obj)
+    (hr : recVal c h root n p k o st = some (st', v)) (hvo : visitOut c st'.out p k v = none) :
+    ∃ m, Raised (hrun c h root m ⟨.item k o :: rest, p, st.reg, (pp, acc) :: nr, st.out, val, st.trace, none⟩)
+      { st' with trace := st'.trace ++ [.visit p k o v] } := by
+  cases n with
+  | zero => simp [recVal] at hr
+  | succ n =>
+  simp only [recVal] at hr
+  cases o with
+  | atom a =>
+    simp only at hr
+    injection hr with hr; injection hr with h1 h2; subst h1; subst h2
+    refine ⟨1, ?_⟩
+    rw [hrun_one c h root _ _ (by simp only [hstep]; rfl)]
+    rw [finishItem_raise c _ rest k (.atom a) (.atom a) hvo]
+    simp [Raised]
+  | ref id =>
+    simp only at hr
+    split at hr
+    · rename_i v0 hlk
+      injection hr with hr; injection hr with h1 h2; subst h1; subst h2
+      refine ⟨1, ?_⟩
+      rw [hrun_one c h root _ _ (by simp only [hstep, hlk]; rfl)]
+      rw [finishItem_raise c _ rest k (.ref id) _ hvo]
+      simp [Raised]
+    · rename_i hlk
+      split at hr
+      · rename_i hnd
+        injection hr with hr; injection hr with h1 h2; subst h1; subst h2
+        refine ⟨1, ?_⟩
+        rw [hrun_one c h root _ _ (by simp only [hstep, hlk, hnd]; rfl)]
+        rw [finishItem_raise c _ rest k (.ref id) (.ref id) hvo]
+        simp [Raised]
+      · rename_i nd hnd
+        split at hr
+        · simp at hr
+        · rename_i st2 items hri
+          injection hr with hr; injection hr with h1 h2; subst h1; subst h2
+          obtain ⟨m2, val', h2⟩ := (sim_all c h root n).2 _ _ _ _ st2 items (.exit k id st.out.length nd.kind :: rest) p
+            ((pp, acc) :: nr) val hri
+          refine ⟨1 + (m2 + 1), ?_⟩
+          have e1 : hrun c h root 1
+              ⟨.item k (.ref id) :: rest, p, st.reg, (pp, acc) :: nr, st.out, val, st.trace, none⟩ =
+              ⟨itemFrames (enumItems nd.kind 0 nd.items) ++ (.exit k id st.out.length nd.kind :: rest),
+               if Obj.ref id = root then p else p ++ [k], (id, .ref st.out.length) :: st.reg,
+               (p, []) :: (pp, acc) :: nr, st.out ++ [⟨nd.kind, []⟩], val,
+               st.trace ++ [.enter p k (.ref id) true], none⟩ := by
+            apply hrun_one
+            simp only [hstep, hlk, hnd]
+          rw [hrun_add, hrun_add, e1, h2]
+          rw [hrun_one c h root _ _ (by simp only [hstep]; rfl)]
+          rw [finishItem_raise c _ rest k (.ref id) _ hvo]
+          simp [Raised]
+
+def RaisedVal (c : HCfg) (h : Heap) (root : Obj) (n : Nat) : Prop :=
+  ∀ (p : Path) (k : Key) (o : Obj) (st st' : RSt)
+    (rest : List HFrame) (pp : Path) (acc : List (Key × Obj)) (nr : List (Path × List (Key × Obj))) (val : Obj),
+    recValE c h root n p k o st = some (.raised st') →
+    ∃ m, Raised (hrun c h root m ⟨.item k o :: rest, p, st.reg, (pp, acc) :: nr, st.out, val, st.trace, none⟩) st'
+
+def RaisedItems (c : HCfg) (h : Heap) (root : Obj) (n : Nat) : Prop :=
+  ∀ (p : Path) (items acc : List (Key × Obj)) (st st' : RSt)
+    (rest : List HFrame) (pp : Path) (nr : List (Path × List (Key × Obj))) (val : Obj),
+    recItemsE c h root n p items acc st = some (.raised st') →
+    ∃ m, Raised (hrun c h root m ⟨itemFrames items ++ rest, p, st.reg, (pp, acc) :: nr, st.out, val, st.trace, none⟩) st'
+
+theorem raised_all (c : HCfg) (h : Heap) (root : Obj) (n : Nat) :
+    RaisedVal c h root n ∧ RaisedItems c h root n := by
+  induction n with
+  | zero =>
+    constructor
+    · intro p k o st st' rest pp acc nr val hr; simp [recValE] at hr
+    · intro p items acc st st' rest pp nr val hr; simp [recItemsE] at hr
+  | succ n ih =>
+    constructor
+    · intro p k o st st' rest pp acc nr val hr
+      cases o with
+      | atom a => simp [recValE] at hr
+      | ref id =>
+        simp only [recValE] at hr
+        split at hr
+        · simp at hr
+        · rename_i hlk
+          split at hr
+          · simp at hr
+          · rename_i nd hnd
+            split at hr
+            · simp at hr
+            · rename_i st2 hri
+              injection hr with hr; injection hr with hr; subst hr
+              obtain ⟨m2, h2⟩ := ih.2 _ _ _ _ st2 (.exit k id st.out.length nd.kind :: rest) p
+                ((pp, acc) :: nr) val hri
+              refine ⟨1 + m2, ?_⟩
+              have e1 : hrun c h root 1
+                  ⟨.item k (.ref id) :: rest, p, st.reg, (pp, acc) :: nr, st.out, val, st.trace, none⟩ =
+                  ⟨itemFrames (enumItems nd.kind 0 nd.items) ++ (.exit k id st.out.length nd.kind :: rest),
+                   if Obj.ref id = root then p else p ++ [k], (id, .ref st.out.length) :: st.reg,
+                   (p, []) :: (pp, acc) :: nr, st.out ++ [⟨nd.kind, []⟩], val,
+                   st.trace ++ [.enter p k (.ref id) true], none⟩ := by
+                apply hrun_one
+                simp only [hstep, hlk, hnd]
+              rw [hrun_add, e1]
+              exact h2
+            · simp at hr
+    · intro p items acc st st' rest pp nr val hr
+      cases items with
+      | nil => simp [recItemsE] at hr
+      | cons x r =>
+        obtain ⟨k, o⟩ := x
+        simp only [recItemsE] at hr
+        split at hr
+        · simp at hr
+        · rename_i st1 hv
+          injection hr with hr; injection hr with hr; subst hr
+          obtain ⟨m, hm⟩ := ih.1 p k o st st1 (itemFrames r ++ rest) pp acc nr val hv
+          exact ⟨m, by simpa [itemFrames] using hm⟩
+        · rename_i st1 v1 hv
+          have hv' := (recE_ok c h root n).1 _ _ _ _ _ _ hv
+          split at hr
+          · rename_i hvo
+            injection hr with hr; injection hr with hr; subst hr
+            obtain ⟨m, hm⟩ := simVal_raise c h root n p k o st st1 v1 (itemFrames r ++ rest) pp acc nr val hv' hvo
+            exact ⟨m, by simpa [itemFrames] using hm⟩
+          · rename_i its hvo
+            obtain ⟨m1, h1⟩ := (sim_all c h root n).1 p k o st st1 v1 its (itemFrames r ++ rest) pp acc nr val hv' hvo
+            obtain ⟨m2, h2⟩ := ih.2 p r (acc ++ its) { st1 with trace := st1.trace ++ [.visit p k o v1] } st'
+              rest pp nr v1 hr
+            refine ⟨m1 + m2, ?_⟩
+            rw [hrun_add]
+            simp only [itemFrames, List.map_cons, List.cons_append] at h1 ⊢
+            rw [h1]
+            exact h2
+
+
+/-! C: the recursion with raising visits returns within fuel `hbound h`, for EVERY visit callback -/
+
+def TermValE (c : HCfg) (h : Heap) (root : Obj) (n : Nat) : Prop :=
+  ∀ (p : Path) (k : Key) (o : Obj) (st : RSt) (todo : List Nat),
+    TInvR h todo st → costSum h todo + 1 ≤ n →
+    (∃ st' v todo', recValE c h root n p k o st = some (.ok st' v) ∧ TInvR h todo' st' ∧
+      costSum h todo' ≤ costSum h todo) ∨ (∃ st', recValE c h root n p k o st = some (.raised st'))
+
+def TermItemsE (c : HCfg) (h : Heap) (root : Obj) (n : Nat) : Prop :=
+  ∀ (p : Path) (items acc : List (Key × Obj)) (st : RSt) (todo : List Nat),
+    TInvR h todo st → costSum h todo + items.length + 1 ≤ n →
+    (∃ st' acc' todo', recItemsE c h root n p items acc st = some (.ok st' acc') ∧ TInvR h todo' st' ∧
+      costSum h todo' ≤ costSum h todo) ∨ (∃ st', recItemsE c h root n p items acc st = some (.raised st'))
+
+theorem termItemsE_succ (c : HCfg) (h : Heap) (root : Obj) (n : Nat)
+    (hv : TermValE c h root n) (hi : TermItemsE c h root n) : TermItemsE c h root (n + 1) := by
+  intro p items acc st todo ht hn
+  cases items with
+  | nil => exact Or.inl ⟨st, acc, todo, by simp [recItemsE], ht, Nat.le_refl _⟩
+  | cons x r =>
+    obtain ⟨k, o⟩ := x
+    simp only [List.length_cons] at hn
+    rcases hv p k o st todo ht (by omega) with ⟨st1, v1, todo1, h1, ht1, hc1⟩ | ⟨st1, h1⟩
+    · cases hvo : visitOut c st1.out p k v1 with
+      | none => exact Or.inr ⟨{ st1 with trace := st1.trace ++ [.visit p k o v1] }, by simp only [recItemsE, h1, hvo]⟩
+      | some its =>
+        rcases hi p r (acc ++ its) { st1 with trace := st1.trace ++ [.visit p k o v1] } todo1 ht1 (by omega)
+          with ⟨st2, acc2, todo2, h2, ht2, hc2⟩ | ⟨st2, h2⟩
+        · exact Or.inl ⟨st2, acc2, todo2, by simp only [recItemsE, h1, hvo, h2], ht2, by omega⟩
+        · exact Or.inr ⟨st2, by simp only [recItemsE, h1, hvo, h2]⟩
+    · exact Or.inr ⟨st1, by simp only [recItemsE, h1]⟩
+
+theorem termValE_succ (c : HCfg) (h : Heap) (root : Obj) (n : Nat)
+    (hi : TermItemsE c h root n) : TermValE c h root (n + 1) := by
+  intro p k o st todo ht hn
+  cases o with
+  | atom a =>
+    exact Or.inl ⟨{ st with trace := st.trace ++ [.enter p k (.atom a) false] }, .atom a, todo,
+      by simp only [recValE], ht, Nat.le_refl _⟩
+  | ref id =>
+    cases hlk : lookup id st.reg with
+    | some v0 => exact Or.inl ⟨st, v0, todo, by simp only [recValE, hlk], ht, Nat.le_refl _⟩
+    | none =>
+      cases hnd : h[id]? with
+      | none =>
+        exact Or.inl ⟨{ st with trace := st.trace ++ [.enter p k (.ref id) false] }, .ref id, todo,
+          by simp only [recValE, hlk, hnd], ht, Nat.le_refl _⟩
+      | some nd =>
+        have hm : id ∈ todo := ht id nd hnd hlk
+        have hc := costSum_erase h todo id hm
+        have hcost : cost h id = nd.items.length + 2 := by simp [cost, hnd, nodeCost]
+        have ht1 : TInvR h (todo.erase id)
+            ⟨(id, .ref st.out.length) :: st.reg, st.out ++ [⟨nd.kind, []⟩],
+             st.trace ++ [.enter p k (.ref id) true]⟩ := by
+          intro id' nd' hn' hl
+          have := lookup_cons_none hl
+          exact (List.mem_erase_of_ne (Ne.symm this.1)).2 (ht id' nd' hn' this.2)
+        rcases hi (if Obj.ref id = root then p else p ++ [k]) (enumItems nd.kind 0 nd.items) [] _ _ ht1
+            (by rw [enumItems_length]; omega) with ⟨st2, items, todo2, h2, ht2, hc2⟩ | ⟨st2, h2⟩
+        · refine Or.inl ⟨⟨(id, (exitNode nd.kind st.out.length items st2.out).2) :: st2.reg,
+                  (exitNode nd.kind st.out.length items st2.out).1, st2.trace ++ [.exit id]⟩,
+                (exitNode nd.kind st.out.length items st2.out).2, todo2,
+                by simp only [recValE, hlk, hnd, h2], ?_, by omega⟩
+          intro id' nd' hn' hl
+          exact ht2 id' nd' hn' (lookup_cons_none hl).2
+        · exact Or.inr ⟨st2, by simp only [recValE, hlk, hnd, h2]⟩
+
+theorem termE_all (c : HCfg) (h : Heap) (root : Obj) (n : Nat) :
+    TermValE c h root n ∧ TermItemsE c h root n := by
+  induction n with
+  | zero =>
+    constructor
+    · intro p k o st todo ht hn; omega
+    · intro p items acc st todo ht hn; omega
+  | succ n ih =>
+    exact ⟨termValE_succ c h root n ih.2, termItemsE_succ c h root n ih.1 ih.2⟩
+
+theorem recRootE_returns (c : HCfg) (h : Heap) (id : Nat) (nd : Node)
+    (hnd : h[id]? = some nd) : ∃ r, recRootE c h (.ref id) (hbound h) = some r := by
+  have hm : id ∈ List.range h.length := by
+    rcases Nat.lt_or_ge id h.length with hlt | hge
+    · simpa using hlt
+    · simp [List.getElem?_eq_none hge] at hnd
+  have hc := costSum_erase h (List.range h.length) id hm
+  have hcost : cost h id = nd.items.length + 2 := by simp [cost, hnd, nodeCost]
+  have ht1 : TInvR h ((List.range h.length).erase id)
+      ⟨[(id, .ref 0)], [⟨nd.kind, []⟩], [.enter [] .none (.ref id) true]⟩ := by
+    intro id' nd' hn' hl
+    have := lookup_cons_none hl
+    refine (List.mem_erase_of_ne (Ne.symm this.1)).2 ?_
+    rcases Nat.lt_or_ge id' h.length with hlt | hge
+    · simpa using hlt
+    · simp [List.getElem?_eq_none hge] at hn'
+  rcases (termE_all c h (.ref id) (hbound h)).2 [] (enumItems nd.kind 0 nd.items) [] _ _ ht1
+      (by rw [enumItems_length, costSum_range] at *; simp only [hbound]; omega)
+    with ⟨st2, items, todo2, h2, _, _⟩ | ⟨st2, h2⟩
+  · simp only [recRootE, hnd, h2]; exact ⟨_, rfl⟩
+  · simp only [recRootE, hnd, h2]; exact ⟨_, rfl⟩
+
+/-- what the loop's final state is, given the outcome of the recursion -/
+def Agrees (s : HSt) : RRes Obj → Prop
+  | .ok st' v => s = ⟨[], [], st'.reg, [], st'.out, v, st'.trace, none⟩
+  | .raised st' => Raised s st'
+
+theorem hfinal_agrees_recRootE (c : HCfg) (h : Heap) (root : Obj) (n : Nat) (r : RRes Obj)
+    (hr : recRootE c h root n = some r) : Agrees (hfinal c h root) r := by
+  cases r with
+  | ok st' v =>
+    have : recRoot c h root n = some (st', v) := by
+      unfold recRootE at hr
+      unfold recRoot
+      cases root with
+      | atom a => simp at hr
+      | ref id =>
+        simp only at hr ⊢
+        split at hr
+        · simp at hr
+        · rename_i nd hnd
+          split at hr
+          · simp at hr
+          · simp at hr
+          · rename_i st2 items hri
+            injection hr with hr; injection hr with h1 h2; subst h1; subst h2
+            simp only [hnd, (recE_ok c h (.ref id) n).2 _ _ _ _ _ _ hri]
+    exact hfinal_eq_recRoot c h root n st' v this
+  | raised st' =>
+    unfold recRootE at hr
+    cases root with
+    | atom a => simp at hr
+    | ref id =>
+      simp only at hr
+      split at hr
+      · simp at hr
+      · rename_i nd hnd
+        split at hr
+        · simp at hr
+        · rename_i st2 hri
+          injection hr with hr; injection hr with hr; subst hr
+          obtain ⟨m2, h2⟩ := (raised_all c h (.ref id) n).2 _ _ _ _ st2 [.exit .none id 0 nd.kind] [] [] (.ref id) hri
+          have e1 : hrun c h (.ref id) 1 (hinit (.ref id)) =
+              ⟨itemFrames (enumItems nd.kind 0 nd.items) ++ [.exit .none id 0 nd.kind], [],
+               [(id, .ref 0)], [([], [])], [⟨nd.kind, []⟩], .ref id, [.enter [] .none (.ref id) true], none⟩ := by
+            apply hrun_one
+            simp [hstep, hinit, lookup, hnd]
+          have h2' : Raised (hrun c h (.ref id) m2
+              ⟨itemFrames (enumItems nd.kind 0 nd.items) ++ [.exit .none id 0 nd.kind], [],
+               [(id, .ref 0)], [([], [])], [⟨nd.kind, []⟩], .ref id, [.enter [] .none (.ref id) true], none⟩) st2 := h2
+          have e2 : hrun c h (.ref id) (1 + m2) (hinit (.ref id)) = hrun c h (.ref id) m2
+              ⟨itemFrames (enumItems nd.kind 0 nd.items) ++ [.exit .none id 0 nd.kind], [],
+               [(id, .ref 0)], [([], [])], [⟨nd.kind, []⟩], .ref id, [.enter [] .none (.ref id) true], none⟩ := by
+            rw [hrun_add, e1]
+          have hhalt : hstep c h (.ref id) (hrun c h (.ref id) (1 + m2) (hinit (.ref id))) = none := by
+            rw [e2]; simp [hstep, h2'.1]
+          have : hfinal c h (.ref id) = hrun c h (.ref id) (1 + m2) (hinit (.ref id)) :=
+            hrun_eq_of_halted c h (.ref id) (1 + m2) (hbound h) (hinit (.ref id)) _ rfl hhalt
+              (hfinal_halted c h (.ref id))
+          rw [Agrees, this, e2]
+          exact h2'
+        · simp at hr
 
 
 end C08
